@@ -89,7 +89,11 @@ func c09Corpus() []c09Item {
 		"H*0~\r\nA*x\r\ny~\nA*z~\r\nT~\r\n", "H~A*1~")
 	add("c09/json-multiline", `{`+c09Hdr("json", "")+`,
  "transform_declarations":{"FINAL_OUTPUT":{"xpath":"/items/*","object":{"n":{"xpath":"n"},"c":{"custom_func":{"name":"copy"}}}}}}`,
-		"{\n \"items\": [\n  {\"n\": \"\\u00e9\\n\", \"v\": [1, 2.5, true, null]},\n  {\"n\": \"世\"}\n ]\n}\n", "{\"items\":[{\"n\":1},\n{\"n\":2}\n]}}", "{\"items\":[{\"n\":1},\n\n{\"n\" 2}]}")
+		"{\n \"items\": [\n  {\"n\": \"\\u00e9\\n\", \"v\": [1, 2.5, true, null]},\n  {\"n\": \"世\"}\n ]\n}\n", "{\"items\":[{\"n\":1},\n{\"n\":2}\n]}}", "{\"items\":[{\"n\":1},\n\n{\"n\" 2}]}",
+		"{\"items\":[{\"n\":1},\n{\"n\" 2},\n\n\n{\"n\":3}]}")
+	add("c09/json-failing-record", `{`+c09Hdr("json", "")+`,
+ "transform_declarations":{"FINAL_OUTPUT":{"xpath":"/*","object":{"a":{"xpath":"a","type":"int"}}}}}`,
+		"[{\"a\":1},\n{\"a\":\"zz\"},\n\n\n{\"a\":3}]")
 	add("c09/xml-rich", `{`+c09Hdr("xml", "")+`,
  "transform_declarations":{"FINAL_OUTPUT":{"xpath":"/r/a[@k!='0']","object":{"k":{"xpath":"@k"},"t":{"xpath":"t"},"c":{"custom_func":{"name":"copy"}}}}}}`,
 		bom+"<?xml version=\"1.0\" encoding=\"UTF-8\"?>\n<r xmlns:p=\"u\">\n <a k=\"1\"><t>x &amp; <![CDATA[<y>]]></t><!-- c --></a>\n <a k=\"0\"/>\n <a k=\"é\"><p:t>世</p:t></a>\n</r>\n",
